@@ -175,7 +175,7 @@ int xconvert(const char* x, std::pair<T, U>& out, const char** errPos = 0, int s
 	if (!ps || *n == ')') {
 		n += ps;
 		if (tokU)        { out.second= temp.second; ++sum; }
-		if (tokU || !*n) { out.first = temp.first; ++sum; }
+		if (tokU || (tokT && !*n)) { out.first = temp.first; ++sum; }
 	}
 	if (!sum) { n = x; }
 	if (errPos) *errPos = n;
